@@ -64,12 +64,16 @@ struct {
 	__type(value, struct qos_stats);
 } qos_stats_map SEC(".maps");
 
+#define NSEC_PER_SEC 1000000000ULL
+
 /* Update token bucket and check if packet can pass
  * Returns: 1 if packet allowed, 0 if should be dropped
  */
 static __always_inline int token_bucket_check(struct token_bucket *tb, __u32 pkt_len) {
 	__u64 now = bpf_ktime_get_ns();
+	__u64 bytes_per_sec;
 	__u64 elapsed_ns;
+	__u64 fill_ns;
 	__u64 new_tokens;
 	__u64 tokens_needed;
 
@@ -77,21 +81,40 @@ static __always_inline int token_bucket_check(struct token_bucket *tb, __u32 pkt
 	if (tb->rate_bps == 0)
 		return 1;
 
+	/* rate_bps / 8 = bytes per second (at least one, so tiny rates still refill) */
+	bytes_per_sec = tb->rate_bps / 8;
+	if (bytes_per_sec == 0)
+		bytes_per_sec = 1;
+
 	/* Calculate elapsed time since last update */
 	elapsed_ns = now - tb->last_update;
 
-	/* Calculate new tokens to add (rate_bps / 8 = bytes per second) */
-	/* tokens = elapsed_ns * (rate_bps / 8) / 1e9 */
-	/* Simplified: tokens = elapsed_ns * rate_bps / 8e9 */
-	new_tokens = (elapsed_ns * (tb->rate_bps / 8)) / 1000000000ULL;
+	/* After this long the bucket is full whatever it held before. Handling that
+	 * case first also keeps elapsed_ns * bytes_per_sec below 2^63 (a new bucket has
+	 * last_update == 0, i.e. an "elapsed" time equal to the uptime).
+	 */
+	fill_ns = (((__u64)tb->burst_bytes + 1) * NSEC_PER_SEC) / bytes_per_sec;
 
-	/* Add tokens, capped at burst size */
-	tb->tokens += new_tokens;
-	if (tb->tokens > tb->burst_bytes)
+	if (elapsed_ns >= fill_ns) {
 		tb->tokens = tb->burst_bytes;
+		tb->last_update = now;
+	} else {
+		/* tokens = elapsed_ns * bytes_per_sec / 1e9, rounded down */
+		new_tokens = (elapsed_ns * bytes_per_sec) / NSEC_PER_SEC;
+		if (new_tokens > 0) {
+			/* Add tokens, capped at burst size */
+			tb->tokens += new_tokens;
+			if (tb->tokens > tb->burst_bytes)
+				tb->tokens = tb->burst_bytes;
 
-	/* Update timestamp */
-	tb->last_update = now;
+			/* Advance the clock only by the time these tokens stand for. The
+			 * part of elapsed_ns that was rounded away stays on the clock, so
+			 * closely spaced packets neither lose credit nor starve a flow
+			 * whose packets arrive less than one token-time apart.
+			 */
+			tb->last_update += (new_tokens * NSEC_PER_SEC) / bytes_per_sec;
+		}
+	}
 
 	/* Check if we have enough tokens for this packet */
 	tokens_needed = pkt_len;
